@@ -147,6 +147,31 @@ def run(ctx):
                 idx += 1
                 if ctx.mine(idx):
                     judge(ctx, matcher, {key: fv}, md, 'core-dotted-key')
+    # filter values that are instances of SUBCLASSES of list / dict / str (an OrderedDict operator object, a str-mixin enum member as
+    # pattern, a list subclass of alternatives): they mean what their base type means
+    import collections
+    import enum
+
+    class Alts(list):
+        pass
+
+    class Text(str):
+        pass
+
+    class Env(str, enum.Enum):
+        ANY_A = 'a*'
+        FIVE = '5'
+
+    def oop(o, v):
+        return collections.OrderedDict([('operator', o), ('value', v)])
+    sub_values = [Alts(['a*', 5]), Alts([None, 'a']), Alts([]), Alts([Alts(['a[bc]']), 7]), oop('<', 5), oop('>=', 'a'), oop('=', 5), collections.defaultdict(int, operator='<=', value=5),
+                  Text('a*'), Text('a[bc]'), Text('5'), Text(''), Env.ANY_A, Env.FIVE, [Text('a?'), oop('>', 5)], Alts([oop('<', 5), Text('a*')]), collections.OrderedDict(x=1)]
+    for fv in sub_values:
+        for rv in RECORDED:
+            idx += 1
+            if ctx.mine(idx):
+                judge(ctx, matcher, {'k': fv}, _md('k', rv), 'core-subclass-values')
+                ctx.count('filter_values_of_subclasses')
     ctx.note('exhaustive_core_cases', idx)
     ctx.exhaustive = True  # of the stated core universe; random part below goes beyond
 
@@ -173,6 +198,8 @@ def run(ctx):
     for li in range(nl):
         listing_case(ctx, rng, li)
 
+    if ctx.shard == 0:
+        hostile_text_listings(ctx)
     concurrent_matching(ctx, matcher)
     ctx.sample({'filter': {'k': ['a*', op('<', 5)]}, 'metadata': {'k': 'ab'}, 'reference': ref_match({'k': ['a*', op('<', 5)]}, {'k': 'ab'})})
     ctx.sample({'filter': {'k': op('<', 5)}, 'metadata': {}, 'reference': ref_match({'k': op('<', 5)}, {})})
@@ -404,7 +431,41 @@ def listing_case(ctx, rng, li):
                         kind, len(got[g]), len(must)), dict(desc, listing=g))
 
 
+HOSTILE_TEXTS = [u'M\u00fcller GmbH', u'say "hi"', u"it's", u'back\\slash', u'line\nbreak', u'tab\there', u'\u65e5\u672c', u'a\u2028b', u'a/b', u'emoji \U0001f600', u'<&>', u'%20',
+                 u'null', u'true', u'5', u'caf\u00e9', u'cafe\u0301', u'\\u00e9', u'{"k": 1}', u' padded ', u'', u'\x7f', u'\u00a0', u'a\\"b']
+
+
+def hostile_text_listings(ctx):
+    """Plain text filters (no pattern characters) with non-ASCII characters, quotes, backslashes, control characters: on every cassette
+    a text selects exactly the recordings that hold it."""
+    for kind, prefix in (('memory', ''), ('file', ''), ('s3', ''), ('s3', 'p/q')):
+        with open_box(kind, prefix=prefix) as box:
+            saved = []
+            for i, t in enumerate(HOSTILE_TEXTS):
+                rec = box.cassette.create_new_recording('Cat')
+                md = {'subject': t, 'other': HOSTILE_TEXTS[(i + 1) % len(HOSTILE_TEXTS)], 'n': i}
+                rec.add_metadata(md)
+                box.cassette.save_recording(rec)
+                saved.append((rec.id, md))
+            reader = box.reader()
+            for i, t in enumerate(HOSTILE_TEXTS):
+                for flt in ({'subject': t}, {'subject': [t, None]}, {'subject': t, 'n': i}, {'other': t}, {'subject': ['no such text', t]}):
+                    desc = {'cassette': kind, 'prefix': prefix, 'hostile_text_filter': flt}
+                    ctx.case(desc)
+                    ctx.count('hostile_text_listings')
+                    try:
+                        got = set(reader.iter_recording_ids('Cat', metadata=flt))
+                    except Exception as ex:
+                        ctx.violation('listing on %s cassette aborted by %s: %s' % (kind, type(ex).__name__, str(ex)[:100]), desc)
+                        continue
+                    must = set(rid for rid, v in saved if ref_match(flt, v) is True)
+                    if got != must:
+                        ctx.violation('listing with a plain text filter on %s cassette returned %d ids, reference %d' % (kind, len(got), len(must)), desc)
+
+
 def replay(ctx, witness):
+    if 'hostile_text_filter' in witness:
+        return hostile_text_listings(ctx)
     from playback.tape_cassette import TapeCassette
     if 'cassette' in witness:
         print('listing witness; re-run the check with the same VERIF_SEED to reproduce')
